@@ -59,7 +59,8 @@ MUT = [
     ('C28-incremental-when-dirty', 'C28', M, "                if self.tantivy_dirty {\n                    // instant_index was used", "                if false && self.tantivy_dirty {\n                    // instant_index was used", 'rebuild_indexes keeps provisional instant-index entries'),
     ('C28-instant-index-not-dirty', 'C28', M, "                        engine.add_frame(&temp_frame, text)?;\n                        engine.soft_commit()?;\n                        self.tantivy_dirty = true;", "                        engine.add_frame(&temp_frame, text)?;\n                        engine.soft_commit()?;", 'put_internal instant index does not mark tantivy_dirty'),
     ('C29-nonce-off-by-one', 'C29', 'src/encryption/capsule_stream.rs', None, None, 'encryption config only (hand-tested while writing the rule)'),
-    ('C42-vacuum-keeps-deleted', 'C42', M, "            .filter(|frame| frame.status == FrameStatus::Active)\n            .cloned()\n            .collect();\n", "            .cloned()\n            .collect();\n", 'vacuum treats deleted frames like active ones (first filter)'),
+    ('C42-vacuum-reads-all', 'C42', M, "            .filter(|frame| frame.status == FrameStatus::Active)\n            .cloned()\n            .collect();\n", "            .cloned()\n            .collect();\n", 'EQUIVALENT: vacuum also reads the payloads of deleted frames (they are never written back: the write loop tests Active) - the check must stay silent'),
+    ('C42-offset-after-advance', 'C42', M, "                    frame.payload_offset = cursor;\n                    frame.payload_length = bytes.len() as u64;\n                    cursor += bytes.len() as u64;", "                    frame.payload_length = bytes.len() as u64;\n                    cursor += bytes.len() as u64;\n                    frame.payload_offset = cursor;", 'vacuum records the end of the payload as its offset'),
     ('C40-end-batch-order', 'C40', M, "        self.wal.flush()?;\n        self.wal.set_skip_sync(false);", "        self.wal.set_skip_sync(false);\n        self.wal.flush()?;",
      'EQUIVALENT: end_batch restores sync before flushing (flush syncs unconditionally) - the check must stay silent'),
 ]
